@@ -68,7 +68,7 @@ func checkVersionsOn(what string, t *iavl.MutableTree, m *Model, probe []byte) *
 // freshOn opens a new instance on a copy of the storage (vstore backends only).
 func (w *World) freshOn(cfg Cfg) (*iavl.MutableTree, *vstore.Store) {
 	st := w.VS.Clone()
-	t := iavl.NewMutableTree(st, cfg.Cache, !cfg.Fast, iavl.NewNopLogger(), cfg.options()...)
+	t := cfg.newTree(st, cfg.Cache, !cfg.Fast)
 	return t, st
 }
 
@@ -102,7 +102,7 @@ func oracleVersions(probe []byte) Oracle {
 		}
 		// LoadVersion(v) for every v on scratch instances
 		for _, v := range m.VersionCandidates(1) {
-			t2 := iavl.NewMutableTree(st.Clone(), w.Cfg.Cache, !w.Cfg.Fast, iavl.NewNopLogger(), w.Cfg.options()...)
+			t2 := w.Cfg.newTree(st.Clone(), w.Cfg.Cache, !w.Cfg.Fast)
 			_, err := t2.LoadVersion(v)
 			if (err == nil) != m.Has(v) {
 				_ = t2.Close()
